@@ -37,6 +37,7 @@ class Cls:
         self.makes = []          # indices of classes X (self or descendants) with a static Make_<X> here
         self.peek = None         # root class index for tagof_<name>(const Root& other)
         self.prop = False
+        self.ref = False         # `const K& ref_K() const`: a reference return, wrapped as an independent copy
 
     @property
     def cpp(self):
@@ -62,6 +63,7 @@ def forest(r, n):
         c = Cls(i, 'K%d' % i, ns, parent, virtual)
         c.two_ctor = r.random() < 0.4
         c.prop = r.random() < 0.5
+        c.ref = r.random() < 0.7
         cs.append(c)
     for c in cs:
         desc = [d.idx for d in cs if c.idx in chain(cs, d.idx)]
@@ -89,6 +91,8 @@ def interface_text(cs, r):
             body.append('  %s(int k, int j);' % c.name)
         body.append('  int echo_%s(int x) const;' % c.name)
         body.append('  %s* self_%s();' % (c.cpp, c.name))
+        if c.ref:
+            body.append('  const %s& ref_%s() const;' % (c.cpp, c.name))
         for x in c.makes:
             body.append('  static %s* Make_%s(int k);' % (c.cpp, cs[x].name))
         if c.peek is not None:
@@ -136,6 +140,10 @@ def library_text(cs):
                  % (c.name, init, swap, c.idx, c.cpp, c.name))
         o.append('  %s(int k, int j) : %s(k + 100 * j) { vlib::log("%s::%s/2 k=" + vlib::S(k) + " j=" + vlib::S(j)); }'
                  % (c.name, c.name, c.cpp, c.name))
+        cinit = 'oid(vlib::next_oid()++), tag(o.tag)' if c.parent is None else '::%s(o)' % cs[c.parent].cpp
+        o.append('  %s(const %s &o) : %s { %svlib::live()[%d]++; vlib::log("%s::copy from=" + vlib::S(o.oid) + " oid=" + vlib::S(oid)); }'
+                 % (c.name, c.name, cinit, swap, c.idx, c.cpp))
+        o.append('  const %s &ref_%s() const { vlib::log("%s::ref_%s oid=" + vlib::S(oid)); return *this; }' % (c.name, c.name, c.cpp, c.name))
         o.append('  %s~%s() { vlib::live()[%d]--; %s}' % ('virtual ' if c.virtual else '', c.name, c.idx, unswap))
         o.append('  int echo_%s(int x) const { vlib::log("%s::echo_%s oid=" + vlib::S(oid) + " x=" + vlib::S(x)); return tag * 1000 + x * 10 + %d; }'
                  % (c.name, c.cpp, c.name, c.idx))
@@ -311,6 +319,27 @@ class Session:
                   ['%s::self_%s oid=%d' % (lv.cpp, lv.name, oid)])
         self.proxies[m2] = (cls, oid)
 
+    def op_copy(self):
+        """a method that returns a class by reference: MATLAB receives a handle on an independent copy (sliced to the
+        declared class), owned by the new handle alone"""
+        m = self.pick()
+        if m is None:
+            return
+        cand = [i for i in chain(self.cs, self.proxies[m][0]) if self.cs[i].ref]
+        if not cand:
+            return
+        lv = self.cs[self.r.choice(cand)]
+        src = self.proxies[m][1]
+        mid = self.tab[lv.idx]['methods'][('ref_' + lv.name, 0)]
+        v = self.virt.get(mid, False)
+        m2 = self.fresh()
+        oid = len(self.objs)
+        self.emit('ocall %d %d %d' % (m2, m, mid), ['make', str(m2), lv.cpp, lv.cpp, 'T' if v else 'F'], lv.matlab,
+                  ['%s::ref_%s oid=%d' % (lv.cpp, lv.name, src)] +
+                  ['%s::copy from=%d oid=%d' % (self.cs[i].cpp, src, oid) for i in reversed(chain(self.cs, lv.idx))])
+        self.objs.append({'dyn': lv.idx, 'tag': self.objs[src]['tag'], 'pv': {}})
+        self.proxies[m2] = (lv.idx, oid)
+
     def op_make(self):
         c = self.r.choice(self.cs)
         if not c.makes:
@@ -402,8 +431,10 @@ def history(s, n, with_stale):
             s.op_new()
         elif k < 0.40:
             s.op_self()
-        elif k < 0.50:
+        elif k < 0.46:
             s.op_make()
+        elif k < 0.50:
+            s.op_copy()
         elif k < 0.58:
             s.op_echo()
         elif k < 0.62:
